@@ -11,8 +11,10 @@ import (
 	"fmt"
 	"net/netip"
 	"reflect"
+	"runtime"
 	"strings"
 	"sync"
+	"sync/atomic"
 	"testing"
 	"time"
 
@@ -28,11 +30,7 @@ func TestVerifParallelApply(t *testing.T) {
 	if !out.Wants("par-apply") {
 		return
 	}
-	rounds := 300
-	if verifh.Thorough() {
-		rounds = 3000
-	}
-	const g = 8
+	const g = 16
 	type job struct {
 		p    plugin.Plugin
 		want []ndp.Option
@@ -40,10 +38,10 @@ func TestVerifParallelApply(t *testing.T) {
 	mk := func(k int) []job {
 		var addrs []system.IP
 		var routes []system.Route
-		for j := 0; j < 3+k%4; j++ {
+		for j := 0; j < 24+k%7; j++ {
 			// unsorted on purpose: the expansion sorts its own copy
-			addrs = append(addrs, system.IP{Address: netip.MustParsePrefix(fmt.Sprintf("2001:db8:%x:%x::1/64", k, (7*j+3)%11)), ValidForever: true})
-			routes = append(routes, system.Route{Prefix: netip.MustParsePrefix(fmt.Sprintf("fd%02x:%x::/48", k, (5*j+2)%9))})
+			addrs = append(addrs, system.IP{Address: netip.MustParsePrefix(fmt.Sprintf("2001:db8:%x:%x::1/64", k, (7*j+3)%41)), ValidForever: true})
+			routes = append(routes, system.Route{Prefix: netip.MustParsePrefix(fmt.Sprintf("fd%02x:%x::/48", k, (5*j+2)%37))})
 		}
 		clock := func() time.Time { return time.Unix(1_700_000_000+int64(k), 0) }
 		pf := &plugin.Prefix{Auto: true, Prefix: netip.MustParsePrefix("::/64"), OnLink: true, Autonomous: true, ValidLifetime: time.Hour,
@@ -70,28 +68,43 @@ func TestVerifParallelApply(t *testing.T) {
 	}
 	var mu sync.Mutex
 	var viol []string
-	var wg sync.WaitGroup
-	for k := 0; k < g; k++ {
-		wg.Add(1)
-		go func(k int) {
-			defer wg.Done()
-			for r := 0; r < rounds; r++ {
-				for _, j := range jobs[k] {
-					ra := &ndp.RouterAdvertisement{}
-					err := j.p.Apply(ra)
-					if err != nil || !reflect.DeepEqual(ra.Options, j.want) {
-						mu.Lock()
-						if len(viol) < 3 {
-							viol = append(viol, fmt.Sprintf("%s of interface %d, built while the others build theirs, differs from the same call alone (error %v)", j.p.Name(), k, err))
+	rounds := 0
+	// two phases: many goroutines on two processors (they interrupt each other in the middle of an expansion), then
+	// on all processors (they run truly at the same time); each for a fixed time, not a fixed number of rounds
+	for phase, procs := range []int{2, runtime.GOMAXPROCS(0)} {
+		budget := 1200 * time.Millisecond
+		if verifh.Thorough() {
+			budget = 8 * time.Second
+		}
+		prev := runtime.GOMAXPROCS(procs)
+		deadline := time.Now().Add(budget)
+		var wg sync.WaitGroup
+		var n atomic.Int64
+		for k := 0; k < g; k++ {
+			wg.Add(1)
+			go func(k int) {
+				defer wg.Done()
+				for r := 0; r < 200 || time.Now().Before(deadline); r++ {
+					n.Add(1)
+					for _, j := range jobs[k] {
+						ra := &ndp.RouterAdvertisement{}
+						err := j.p.Apply(ra)
+						if err != nil || !reflect.DeepEqual(ra.Options, j.want) {
+							mu.Lock()
+							if len(viol) < 3 {
+								viol = append(viol, fmt.Sprintf("%s of interface %d, built while the others build theirs (phase %d, %d processors), differs from the same call alone (error %v)", j.p.Name(), k, phase, procs, err))
+							}
+							mu.Unlock()
+							return
 						}
-						mu.Unlock()
-						return
 					}
 				}
-			}
-		}(k)
+			}(k)
+		}
+		wg.Wait()
+		runtime.GOMAXPROCS(prev)
+		rounds += int(n.Load())
 	}
-	wg.Wait()
 	out.Emit(verifh.Case{ID: "par-apply", Input: map[string]any{"kind": "parallel-apply", "goroutines": g, "rounds": rounds},
 		Tags: []string{"parallel:apply"}, ImplViolation: strings.Join(viol, "; ")})
 }
